@@ -124,4 +124,93 @@ theorem detour_outer_wins (top maps : Frame) (src : String) (d : Val) (h : Dict.
     rw [← hpq, hsrc, h] at hq1
     simp at hq1
 
+/-! ### More documented rules: detour transitivity, kwargs merge, deep merge, presets -/
+
+/-- Transitivity of `detour`: `with detour([(B, C)]): with detour([(A, B)]):` maps `A` to `C`. -/
+theorem detour_transitive (top : Frame) (src d : String) (e : Val)
+    (hsrc : Dict.get? top src = none) (hd : Dict.get? top d = some e) :
+    Dict.get? (detourDerive top [(src, .atom (.str d))]) src = some e := by
+  simp only [detourDerive, List.filterMap_cons, List.filterMap_nil, hsrc, Option.isSome_none,
+    Bool.false_eq_true, if_false, hd, Option.getD_some, Dict.update, List.foldl_cons, List.foldl_nil]
+  exact Dict.get?_set_self _ _ _
+
+/-- A source class that no enclosing scope mentions, detoured to a class that no enclosing scope
+detours further, is mapped as written. -/
+theorem detour_fresh (top : Frame) (src d : String)
+    (hsrc : Dict.get? top src = none) (hd : Dict.get? top d = none) :
+    Dict.get? (detourDerive top [(src, .atom (.str d))]) src = some (.atom (.str d)) := by
+  simp only [detourDerive, List.filterMap_cons, List.filterMap_nil, hsrc, Option.isSome_none,
+    Bool.false_eq_true, if_false, hd, Option.getD_none, Dict.update, List.foldl_cons, List.foldl_nil]
+  exact Dict.get?_set_self _ _ _
+
+/-- kwargs merge (`str_format`, `repr_format`, `coding.context`, on-demand types): a key given by the
+inner scope shows the inner value … -/
+theorem update_inner_overrides (f kw : Frame) (k : String) (v : Val)
+    (hnd : (kw.map Prod.fst).Nodup) (hm : (k, v) ∈ kw) : Dict.get? (Dict.update f kw) k = some v := by
+  induction kw generalizing f with
+  | nil => cases hm
+  | cons p kw ih =>
+    simp only [List.map_cons, List.nodup_cons] at hnd
+    have hstep : Dict.update f (p :: kw) = Dict.update (Dict.set f p.1 p.2) kw := rfl
+    rw [hstep]
+    rcases List.mem_cons.mp hm with h | h
+    · subst h
+      rw [update_keeps]
+      · exact Dict.get?_set_self _ _ _
+      · intro q hq hk
+        exact hnd.1 (List.mem_map.mpr ⟨q, hq, hk⟩)
+    · exact ih _ hnd.2 h
+
+/-- … and a key the inner scope does not give keeps the outer value. -/
+theorem update_outer_kept (f kw : Frame) (k : String) (h : ∀ p ∈ kw, p.1 ≠ k) :
+    Dict.get? (Dict.update f kw) k = Dict.get? f k := update_keeps f kw k h
+
+/-- Deep merge (`view_options`, `pg.view`): keys the inner scope does not give keep the outer value. -/
+theorem deepMerge_outer_kept (top kw : Frame) (k : String) (h : ∀ p ∈ kw, p.1 ≠ k) :
+    Dict.get? (deepMerge top kw) k = Dict.get? top k := by
+  unfold deepMerge
+  induction kw generalizing top with
+  | nil => rfl
+  | cons p kw ih =>
+    simp only [List.foldl_cons]
+    rw [ih _ (fun q hq => h q (List.mem_cons_of_mem _ hq))]
+    have hp : k ≠ p.1 := Ne.symm (h p List.mem_cons_self)
+    split <;> exact Dict.get?_set_other _ _ _ _ hp
+
+/-- Deep merge: a nested dict given over a nested dict is merged key by key … -/
+theorem deepMerge_nested (top : Frame) (k : String) (old new : List (String × Atom))
+    (h : Dict.get? top k = some (.dict old)) :
+    Dict.get? (deepMerge top [(k, .dict new)]) k = some (.dict (Dict.update old new)) := by
+  simp only [deepMerge, List.foldl_cons, List.foldl_nil, h]
+  exact Dict.get?_set_self _ _ _
+
+/-- … anything else replaces what the outer scope had. -/
+theorem deepMerge_replace (top : Frame) (k : String) (v : Val)
+    (h : (∃ o, Dict.get? top k = some (.dict o)) → ∀ n, v ≠ .dict n) :
+    Dict.get? (deepMerge top [(k, v)]) k = some v := by
+  simp only [deepMerge, List.foldl_cons, List.foldl_nil]
+  split
+  · rename_i heq
+    exact absurd rfl (h ⟨_, heq⟩ _)
+  · exact Dict.get?_set_self _ _ _
+
+/-- Presets (`preset_args`): without inheritance the named preset is exactly the given kwargs … -/
+theorem preset_no_inherit (top : Frame) (a : Arg) (h : a.inh = .bool false) :
+    Dict.get? (presetDerive top a) a.name = some (.dict (atomsOf a.kw)) := by
+  simp only [presetDerive, h, Option.bind_none]
+  exact Dict.get?_set_self _ _ _
+
+/-- … with `inherit_preset=True` the kwargs are merged over the enclosing preset of the same name … -/
+theorem preset_inherit_same (top : Frame) (a : Arg) (d : List (String × Atom)) (h : a.inh = .bool true)
+    (hd : Dict.get? top a.name = some (.dict d)) :
+    Dict.get? (presetDerive top a) a.name = some (.dict (Dict.update d (atomsOf a.kw))) := by
+  simp only [presetDerive, h, Option.bind_some, hd]
+  exact Dict.get?_set_self _ _ _
+
+/-- … and presets of other names are inherited unchanged. -/
+theorem preset_other_kept (top : Frame) (a : Arg) (n : String) (h : n ≠ a.name) :
+    Dict.get? (presetDerive top a) n = Dict.get? top n := by
+  simp only [presetDerive]
+  exact Dict.get?_set_other _ _ _ _ h
+
 end Pg.C17
